@@ -147,6 +147,8 @@ def build_harness(flavour, name, quiet=False):
     archive = build_libs(flavour, quiet=True)
     if archive is None:
         return None
+    if name.endswith(".py"):
+        return os.path.join(VERIF, "harness", name)   # script speaking the harness protocol (compiles what it needs itself)
     cc, fl = FLAVOURS[flavour]
     flags = COMMON + fl + ["-I" + os.path.join(VERIF, "harness")]
     src = os.path.join(VERIF, "harness", name + ".cpp")
